@@ -28,8 +28,11 @@ def jobs_for(ctx):
     for cache in ("session", "none", "shared"):
         js.append(("exh4-" + cache, ex + ["-maxlen", "4", "-names", "s,p,r", "-caches", cache], {}))
     js.append(("exh4-long", ex + ["-maxlen", "4", "-names", "svc,prod,us-west-2", "-caches", "session"], {}))
-    for k in range(4):
-        js.append(("random-%d" % k, ["-mode", "random", "-cases", "400", "-ids", "26"], {"VERIF_SEED": str(ctx.seed * 1000 + k)}))
+    for k in range(16):
+        js.append(("exh5-long-%02d" % k, ex + ["-maxlen", "5", "-names", "svc,prod,us-west-2", "-caches", "session", "-warm=false",
+                                               "-sfx", "on", "-shard", str(k), "-shards", "16"], {}))
+    for k in range(8):
+        js.append(("random-%d" % k, ["-mode", "random", "-cases", "600", "-ids", "26"], {"VERIF_SEED": str(ctx.seed * 1000 + k)}))
     return js
 
 
